@@ -124,6 +124,10 @@ static bool abort_window_shape() {
     }
     return false;
 }
+// assertion flavour: an internal assertion that fires while an abort() is or was racing with pops is the known finding too
+static bool abort_with_pops_in_history() { bool ab = false, pop = false; for (auto& o : H) { if (o.kind == K_ABORT) ab = true; if (o.kind == K_POP && (o.pending || o.b == 2)) pop = true; } return ab && pop; }
+static void excluded_exit(const char* why);
+static void on_sigabrt(int) { if (!g_witness && abort_with_pops_in_history()) excluded_exit("excluded_abort_window_assert"); signal(SIGABRT, SIG_DFL); }
 static void excluded_exit(const char* why) { vs_stat_add("n_excluded", 1); vs_stat_flag(why); vs_stat_add("nt", 0); vs_ok(); }
 
 template <class Q, class E> struct Runner {
@@ -255,6 +259,7 @@ void h_run(Case& c) {
     g_ops.resize(g_nt); inflight_kind.assign(g_nt, -1); inflight_idx.assign(g_nt, 0); in_window.assign(g_nt, 0);
     H.reserve(256);
     vs_begin(c.sched.c_str());
+    signal(SIGABRT, on_sigabrt);
     switch (g_elem) {      // one size per items-per-page class: 32,16,8,4,2,1 items
     case 0: run_elem<8>(c); break; case 1: run_elem<16>(c); break; case 2: run_elem<24>(c); break;
     case 3: run_elem<40>(c); break; case 4: run_elem<72>(c); break; default: run_elem<136>(c); break;
